@@ -50,10 +50,34 @@ def strat_case(draw, tier):
             c["kind"] = ["call", "put", "call"][i]
             c["strikes"] = [draw(_f(0.5, 250.0)) for _ in range(pdim)]
             c["prices"] = [draw(_f(-50.0, 200.0)) for _ in range(pdim)]
-    return {"n": n, "d": d, "rep": rep, "vals": vals, "kind": kind, "strikes": strikes,
-            "notional": draw(st.sampled_from([1.0, 0.01, 1000.0, 37.5])), "df": draw(_f(0.3, 1.0)),
+    # size of the underlying: equity-like (1), rate-like (1e-3) or tiny (1e-6) values, strikes and control prices
+    scale = draw(st.sampled_from([1.0, 1.0, 1e-3, 1e-6]))
+    if scale != 1.0:
+        vals = [[v * scale for v in row] for row in vals]
+        strikes = [k * scale for k in strikes]
+        for c in controls:
+            for key in ("strike", "price"):
+                c[key] = c[key] * scale
+            for key in ("strikes", "prices"):
+                if key in c:
+                    c[key] = [v * scale for v in c[key]]
+    return {"n": n, "d": d, "rep": rep, "vals": vals, "kind": kind, "strikes": strikes, "scale": scale,
+            # (a zero notional - a switched-off leg - and a negative one are notionals like any other)
+            "notional": draw(st.sampled_from([1.0, 0.01, 1000.0, 37.5, 1.0, 37.5, 0.0, 0, -3.0])), "df": draw(_f(0.3, 1.0)),
             "controls": controls, "price_is_sample_mean": draw(st.booleans()) if ncv else False,
             "spot_stats": draw(st.booleans()), "maturity": draw(_f(0.1, 3.0))}
+
+
+@st.composite
+def strat_mp(draw, tier):
+    case = draw(strat_case(tier))
+    case["n"] = max(case["n"], 5)
+    while len(case["vals"]) < case["n"]:
+        case["vals"] = case["vals"] + [[v * (1.0 + 0.01 * (len(case["vals"]) + 1)) for v in case["vals"][0]]]
+    case["nproc"] = draw(st.sampled_from([2, 2, 3]))
+    case["spot_stats"] = True
+    case["price_is_sample_mean"] = False
+    return case
 
 
 def _payoff(kind, strikes, x):
@@ -97,46 +121,62 @@ def body(case):
 
     product = Product(payoff_underlying=Spot(), payoff=mk_payoff(case["kind"], case["strikes"]), maturity=T,
                       notional=case["notional"])
-    # reference samples
     df, notional = case["df"], case["notional"]
-    und = spots[:, 0] if d == 1 else spots
-    if d == 1:
-        Y = np.array([notional * _payoff(case["kind"], case["strikes"], x) for x in und]) * df  # (n, pdim)
-    else:
-        Y = np.array([notional * _payoff(case["kind"], case["strikes"], x) for x in und]) * df
-    Y = Y.reshape(n, -1)
-    X = None
-    prices = None
-    cv = None
     vec = bool(case["controls"]) and "strikes" in case["controls"][0]
+
+    def references(spots):
+        """(Y, X, X3, prices, prices3): discounted notional-scaled payoff and control samples of the given spots"""
+        und = spots[:, 0] if d == 1 else spots
+        Y = (np.array([notional * _payoff(case["kind"], case["strikes"], x) for x in und]) * df).reshape(len(spots), -1)
+        X = X3 = prices = prices3 = None
+        if case["controls"] and not vec:
+            X = np.array([[float(_payoff(c["kind"], [c["strike"]], x)[0]) * df for c in case["controls"]] for x in und])
+            prices = [c["price"] for c in case["controls"]]
+            if case["price_is_sample_mean"]:
+                prices = [float(v) for v in X.mean(axis=0)]
+        elif vec:
+            # X3[path, control, component]
+            X3 = np.array([[np.asarray(_payoff(c["kind"], c["strikes"], x), dtype=float) * df for c in case["controls"]]
+                           for x in und])
+            prices3 = np.array([c["prices"] for c in case["controls"]], dtype=float)  # (control, component)
+            if case["price_is_sample_mean"]:
+                prices3 = X3.mean(axis=0)
+            X = X3[:, :, 0]
+            prices = [float(v) for v in prices3[:, 0]]
+        return Y, X, X3, prices, prices3
+
+    Y, X, X3, prices, prices3 = references(spots)
+    cv = None
     if case["controls"] and not vec:
-        X = np.array([[float(_payoff(c["kind"], [c["strike"]], x)[0]) * df for c in case["controls"]] for x in und])
-        prices = [c["price"] for c in case["controls"]]
-        if case["price_is_sample_mean"]:
-            prices = [float(v) for v in X.mean(axis=0)]
         cv = ControlVariates([Product(payoff_underlying=Spot(), payoff=mk_payoff(c["kind"], [c["strike"]]), maturity=T)
                               for c in case["controls"]], prices)
     elif vec:
-        # X3[path, control, component]
-        X3 = np.array([[np.asarray(_payoff(c["kind"], c["strikes"], x), dtype=float) * df for c in case["controls"]] for x in und])
-        prices3 = np.array([c["prices"] for c in case["controls"]], dtype=float)  # (control, component)
-        if case["price_is_sample_mean"]:
-            prices3 = X3.mean(axis=0)
         cv = ControlVariates([Product(payoff_underlying=Spot(), payoff=mk_payoff(c["kind"], c["strikes"]), maturity=T)
                               for c in case["controls"]], [np.array(p) for p in prices3])
-        X = X3[:, :, 0]
-        prices = [float(v) for v in prices3[:, 0]]
+    nproc = int(case.get("nproc", 1))
     config = ConfigurationStandard(mc_paths=n, seed=None, control_variates=cv,
-                                   activate_spot_statistics=case["spot_stats"], nb_of_processes=1)
+                                   activate_spot_statistics=case["spot_stats"], nb_of_processes=nproc)
     engine = Engine(configuration=config, process=proc)
     stats = engine.price(product)
     detail = f"case={ {k: v for k, v in case.items() if k != 'vals'} } first values={case['vals'][:3]}"
-    if proc.calls != n:
-        out.append(Violation("C07/number-of-simulated-paths", f"{proc.calls} paths simulated for mc_paths={n}; {detail}"))
-        return out
+    if nproc == 1:
+        if proc.calls != n:
+            out.append(Violation("C07/number-of-simulated-paths", f"{proc.calls} paths simulated for mc_paths={n}; {detail}"))
+            return out
+    else:
+        # worker processes: every worker replays the scripted list from its own start, so which path lands at which
+        # index is the pool's business; the recorded terminal spots (checked against the paths in the single-process
+        # route) say which one did, and every one of them must be a scripted path
+        sp = np.asarray(stats._spot_underlying_statistics.stats, dtype=float).reshape(n, -1)
+        for row in sp:
+            if not np.any(np.all(np.isclose(spots.reshape(n, -1), row, rtol=1e-12, atol=0.0), axis=1)):
+                out.append(Violation("C07/worker-processes/recorded-spot-is-not-a-scripted-path", f"{row}; {detail}"))
+                return out
+        spots = sp.reshape(spots.shape)
+        Y, X, X3, prices, prices3 = references(spots)
     raw = np.atleast_1d(np.asarray(stats.price(no_control_variates=True), dtype=float))
     ref = Y.mean(axis=0)
-    scale = 1.0 + np.abs(Y).max() + notional * df * (spots.max() + max(case["strikes"]))
+    scale = np.abs(Y).max() + abs(notional) * df * (spots.max() + max(case["strikes"]))
     if raw.shape != ref.shape or not np.allclose(raw, ref, rtol=1e-12, atol=1e-12 * scale):
         out.append(Violation("C07/price-is-not-df-times-mean-of-notional-scaled-payoff",
                              f"price={raw}, reference={ref}; {detail}"))
@@ -188,7 +228,7 @@ def body(case):
         else:
             out.append(Violation("LABEL:ill-conditioned-controls"))
             return out
-        sc = 1.0 + np.abs(y).max() + np.abs(X).max() + max(abs(p) for p in prices)
+        sc = np.abs(y).max() + np.abs(X).max() + max(abs(p) for p in prices)
         if not np.allclose(adj_lib[:, k], expect, rtol=1e-7, atol=1e-7 * sc):
             out.append(Violation(f"C07/control-variates/{len(prices)}-controls/adjusted-samples",
                                  f"component {k}: {adj_lib[:3, k]} vs textbook Y - b*(X - price_X) {expect[:3]} "
@@ -209,6 +249,7 @@ def body(case):
 def classify(case):
     pdim = len(case["strikes"])
     labels = [f"d={case['d']}", f"payoff-dim={'1' if pdim == 1 else '2+'}", f"controls={len(case['controls'])}",
+              f"scale={case.get('scale', 1.0):g}", f"processes={case.get('nproc', 1)}",
               "vector-controls" if case["controls"] and "strikes" in case["controls"][0] else "scalar-or-no-controls",
               case["rep"], case["kind"], "n=1" if case["n"] == 1 else ("n<=6" if case["n"] <= 6 else "n>6")]
     if case["price_is_sample_mean"]:
@@ -357,6 +398,11 @@ SUBCHECKS = [
                   ">= 1 control)",
              strategy=strat_case, budget={"quick": 4800, "thorough": 30000},
              essential_labels=("payoff-dim=2+", "controls=2", "controls=3", "price=sample-mean")),
+    SubCheck("worker-processes-estimators", body, classify,
+             rule="the same cases priced with 2 or 3 worker processes (spot statistics on, given control prices): the "
+                  "recorded terminal spots are scripted paths and the stored samples, price, error and control-variate "
+                  "adjustment are the textbook ones of those spots (discounted once)",
+             strategy=strat_mp, budget={"quick": 96, "thorough": 480}, shards={"quick": 16, "thorough": 16}),
     SubCheck("per-path-time-grids", body_grids, classify_grids,
              rule="2..40 scripted paths, each on its own time grid (0..3 interior points, consecutive grids often of equal "
                   "length but different dates), process with x0 and a linear drift, Asian call / spot call / "
